@@ -1,4 +1,5 @@
 from vf.props.common import *
+from vf import planenv
 EXPLANATION = ('cbmc over the real soxr_create / soxr_set_io_ratio / initialise / soxr_set_num_channels with EVERY spec field symbolic '
                '(doubles over their whole range except NaN, datatypes and flags any bits, runtime spec any values, SOXR_* overrides any '
                'subset/any value) over the abstract engine: NULL handle iff error string; spec-carried errors, datatypes > 7, one zero '
@@ -18,4 +19,5 @@ def obligations(tier):
     obls.append(api_step(4, 0, 0, 2, 2)); obls.append(api_step(4, 0, 0, 8, 2)); obls.append(api_step(1, 0, 0, 2, 2))
     obls.append(init_qq_obl())      # real _soxr_init for the quick recipe: cubic stage inside its envelope
     obls.append(plan_obl(3))      # the halving loop of _soxr_init terminates for every finite ratio
+    obls += planenv.obls(tier)      # ENV-(b): plans of the real _soxr_init inside the envelope the kernel obligations assume (enumeration, labelled)
     return obls
